@@ -58,13 +58,14 @@ struct FnVisitor<'a> {
     tries: Vec<Value>,
     calls: Vec<Value>,
     pcalls: Vec<Value>,
+    bytestrs: Vec<Value>,
     ifs: Vec<Value>,
     depth: usize,
 }
 
 impl<'a> FnVisitor<'a> {
     fn new(li: &'a LineIdx) -> Self {
-        FnVisitor { li, loops: vec![], arms: vec![], stmts: vec![], closures: vec![], macros: vec![], binops: vec![], returns: vec![], tries: vec![], calls: vec![], pcalls: vec![], ifs: vec![], depth: 0 }
+        FnVisitor { li, loops: vec![], arms: vec![], stmts: vec![], closures: vec![], macros: vec![], binops: vec![], returns: vec![], tries: vec![], calls: vec![], pcalls: vec![], bytestrs: vec![], ifs: vec![], depth: 0 }
     }
 }
 
@@ -133,6 +134,9 @@ impl<'a, 'ast> Visit<'ast> for FnVisitor<'a> {
         self.pcalls.push(json!({"func": f, "span": sp(self.li, c.span()), "func_span": sp(self.li, c.func.span())}));
         visit::visit_expr_call(self, c);
     }
+    fn visit_lit_byte_str(&mut self, l: &'ast syn::LitByteStr) {
+        self.bytestrs.push(json!({"span": sp(self.li, l.span()), "bytes": l.value()}));
+    }
     fn visit_expr_if(&mut self, i: &'ast syn::ExprIf) {
         self.ifs.push(json!({"span": sp(self.li, i.span()), "cond": sp(self.li, i.cond.span()), "then": sp(self.li, i.then_branch.span())}));
         visit::visit_expr_if(self, i);
@@ -185,7 +189,7 @@ impl<'a> Top<'a> {
             "attrs": attr_spans,
             "loops": fv.loops, "arms": fv.arms, "stmts": fv.stmts, "closures": fv.closures,
             "macros": fv.macros, "binops": fv.binops, "returns": fv.returns, "tries": fv.tries,
-            "calls": fv.calls, "pcalls": fv.pcalls, "ifs": fv.ifs,
+            "calls": fv.calls, "pcalls": fv.pcalls, "bytestrs": fv.bytestrs, "ifs": fv.ifs,
         }));
     }
     fn add_item(&mut self, kind: &str, name: &str, attrs: &[syn::Attribute], whole: Span, extra: Value) {
